@@ -42,9 +42,12 @@ static inline std::string hexf(float f){ char b[32]; snprintf(b,sizeof b,"%08" P
 
 // Build a table in place exactly the way the library lays it out: knots allocated with `order' padding
 // elements on both sides (allocate(nknots+2*order)+order), padding filled with `pad'.
-template<typename Table>
+// [unrelated]: how the table state that lookup and evaluation must NOT depend on is filled in: 0 = the conventional
+// extents (knots[order], knots[naxes]) and no periods; 1..5 = extents below/above/inside the supported range, reversed,
+// NaN, and a periods array with arbitrary values (a table read from a file may carry any of these)
+template<class Table>
 static void build_table(Table& t, const std::vector<uint32_t>& ord, const std::vector<std::vector<double>>& kn,
-                        const std::vector<float>& co, double pad){
+                        const std::vector<float>& co, double pad, int unrelated=0){
   uint32_t nd=ord.size(); t.ndim=nd;
   t.order=t.template allocate<uint32_t>(nd); t.nknots=t.template allocate<uint64_t>(nd);
   t.naxes=t.template allocate<uint64_t>(nd); t.strides=t.template allocate<uint64_t>(nd);
@@ -56,11 +59,22 @@ static void build_table(Table& t, const std::vector<uint32_t>& ord, const std::v
     for(int k=-(int)ord[i];k<(int)(kn[i].size()+ord[i]);k++) t.knots[i][k]=pad;
     std::copy(kn[i].begin(),kn[i].end(),&t.knots[i][0]);
     t.extents[i]=t.extents[0]+2*i; t.extents[i][0]=kn[i][ord[i]]; t.extents[i][1]=kn[i][kn[i].size()-ord[i]-1];
+    size_t na=kn[i].size()-ord[i]-1;
+    switch((unrelated+(int)i)%6){
+      case 1: t.extents[i][0]=kn[i][0]; t.extents[i][1]=kn[i].back(); break;                           // partial support included
+      case 2: t.extents[i][0]=0.5*(kn[i][std::min(na,(size_t)ord[i]+1)]+kn[i][na]); t.extents[i][1]=kn[i][na]; break;   // lower extent inside the range
+      case 3: t.extents[i][0]=kn[i][na]; t.extents[i][1]=kn[i][ord[i]]; break;                          // reversed
+      case 4: t.extents[i][0]=std::nan(""); t.extents[i][1]=std::nan(""); break;
+      case 5: t.extents[i][0]=-1e300; t.extents[i][1]=kn[i][ord[i]]; break;                             // upper extent at the lower end
+      default: break;
+    }
+    if(unrelated==0){ t.extents[i][0]=kn[i][ord[i]]; t.extents[i][1]=kn[i][na]; }
   }
   t.strides[nd-1]=1; for(int i=nd-1;i>0;i--) t.strides[i-1]=t.strides[i]*t.naxes[i];
   uint64_t n=t.strides[0]*t.naxes[0]; t.coefficients=t.template allocate<float>(n);
   for(uint64_t i=0;i<n;i++) t.coefficients[i]= i<co.size()?co[i]:0.f;
   t.periods=NULL; t.naux=0; t.aux=NULL;
+  if(unrelated%2==1){ t.periods=t.template allocate<double>(nd); for(uint32_t i=0;i<nd;i++) t.periods[i]= (i%2? 1.0 : kn[i].back()-kn[i][0]); }
 }
 
 static inline std::vector<std::string> split_ws(const std::string& s){
